@@ -192,7 +192,7 @@ def run(ctx):
             check_line(ctx, rec, D, case)
             ctx.case(("resv", D, ch), True, cls="each reserved character escaped")
     # random records
-    for _ in range(ctx.budget(6000, 800000)):
+    for _ in range(ctx.budget(20000, 800000)):
         D = rng.choice(pts)
         rec = R.record(rng, D, nmin=0 if rng.random() < 0.05 else 1, nmax=6)
         r = rng.random()
